@@ -84,7 +84,7 @@ macro_rules! pick {
 }
 
 /// `assign`+`constrain` / `assign_as_public_input` / `assign_fixed`+`constrain` on one chip.
-fn expose<T, Ch>(
+pub(crate) fn expose<T, Ch>(
     chip: &Ch,
     layouter: &mut impl Layouter<F>,
     val: Value<T::Element>,
